@@ -76,6 +76,12 @@ class Monitor {
         // hard: memory-safety / engine-level findings that do not depend on the model being in sync
         void fail(const std::string &prop, const std::string &rule, const std::string &detail, bool hard = false);
         bool off = false; // model switched off for this run (robustness-only runs)
+        // The property the current check is about. A finding of another property that does not desynchronise the
+        // model (wrong handler arguments, a wrong answer of a query function) is then only noted (`soft_other`)
+        // and the run goes on, so that its consequences for the property under check are still seen.
+        std::string focus;
+        Violation soft_other;
+        bool fail_soft(const std::string &prop, const std::string &rule, const std::string &detail); // true: noted, go on
 
         Violation viol;
         bool desync = false;
